@@ -3,6 +3,7 @@
 package bastion
 
 import (
+	"io"
 	"net/http"
 
 	"github.com/transparency-dev/witness/internal/config"
@@ -20,3 +21,6 @@ func VerifNewHandler(c Config, w feeder.Witness) http.Handler {
 	}
 	return h
 }
+
+// VerifParseBody exposes the add-checkpoint body parser.
+func VerifParseBody(r io.Reader) (uint64, [][]byte, []byte, error) { return parseBody(r) }
